@@ -293,7 +293,8 @@ func (cmd *mainCmd) Run(args []string) error {
 		filename := sourcePath.Absolute
 		content, err := os.ReadFile(filename)
 		if err != nil {
-			return err
+			// Give up, but not without the failures recorded so far.
+			return multierr.Combine(append(errors, err)...)
 		}
 		f, err := parser.ParseFile(fset, filename, content /* src */, parser.AllErrors|parser.ParseComments)
 		if err != nil {
